@@ -220,13 +220,9 @@ theorem readTopics_runs (ts : List (Option Bytes × List Int)) (acc : List (Byte
   | cons tp ts ih =>
     obtain ⟨hs, hl, hps⟩ := hwf tp List.mem_cons_self
     simp only [List.length_cons, List.flatMap_cons, encTopic, List.append_assoc, readTopics_succ]
-    refine (readString_runs _ _ hs).bind <| (readI32_runs _ _ (inRange4_of_nat _ hl)).bind <|
-      (remaining_runs _).bind ?_
-    have hguard : ¬ (((tp.2.length : Int) < 0) ∨ (tp.2.length : Int).toNat * 4 >
-        (tp.2.flatMap encI32 ++ (ts.flatMap encTopic ++ rest)).length) := by
-      simp only [Int.toNat_natCast, List.length_append, flatMap_encI32_length]; omega
-    rw [if_neg hguard, Int.toNat_natCast]
-    refine (allocD_runs _ _).bind <| (readPartitions_runs _ hps _).bind ?_
+    refine (readString_runs _ _ hs).bind <| (readI32_runs _ _ (inRange4_of_nat _ hl)).bind ?_
+    rw [if_neg (by omega), Int.toNat_natCast]
+    refine (remaining_runs _).bind <| (allocD_runs _ _).bind <| (readPartitions_runs _ hps _).bind ?_
     rw [mapSet_append _ _ _ (hfresh tp List.mem_cons_self)]
     rw [List.map_cons, List.nodup_cons] at hnd
     have := ih (acc ++ [(strVal tp.1, tp.2)]) (fun q hq => hwf q (List.mem_cons_of_mem _ hq))
@@ -246,15 +242,10 @@ theorem decodeMemberAssignmentV0_runs (a : Assignment) (hwf : a.WF) (rest : Byte
       (a.topics.map decTopic) rest := by
   obtain ⟨_, _, hlen, htp, hnd, hud, _⟩ := hwf
   rw [decodeMemberAssignmentV0_eq]
-  refine (readI32_runs _ _ (inRange4_of_nat _ hlen)).bind <| (remaining_runs _).bind ?_
-  have hguard : ¬ (((a.topics.length : Int) < 0) ∨ (a.topics.length : Int).toNat >
-      (a.topics.flatMap encTopic ++
-        ((match a.userData with | none => encI32 (-1) | some d => encBytes d) ++ rest)).length) := by
-    have := topics_length_le a.topics
-    simp only [Int.toNat_natCast, List.length_append]; omega
-  rw [if_neg hguard, Int.toNat_natCast]
-  refine (allocD_runs _ _).bind <|
-    (readTopics_runs a.topics [] htp (fun _ _ => by simp) hnd _).bind ?_
+  refine (readI32_runs _ _ (inRange4_of_nat _ hlen)).bind <| (remaining_runs _).bind <|
+    (allocD_runs _ _).bind ?_
+  rw [Int.toNat_natCast]
+  refine (readTopics_runs a.topics [] htp (fun _ _ => by simp) hnd _).bind ?_
   rw [List.nil_append]
   cases hu : a.userData with
   | none =>
@@ -423,8 +414,9 @@ theorem empty_members_clear (m : GroupMetadata) (hwf : m.WF) (accept : Accept)
     (encI32 m.members.length ++ (m.members.flatMap (MemberMsg.enc m.version) ++ rest₂)) a
   simp only [decodeAndSendGroupMetadata, encBody, e1]
   simp only [hpt, strVal, Option.getD_some, ne_eq, not_true_eq_false, if_false]
-  simp only [hnil, List.length_nil, Int.natCast_zero, readI32_enc 0 _ _ (by unfold InRange; decide),
-    if_true]
+  have h0 : InRange 4 0 := by unfold InRange; decide
+  rw [hnil]
+  simp only [List.length_nil, Int.natCast_zero, readI32_enc 0 _ _ h0, if_true]
 
 theorem metadata_tombstone_deletes (group : Option Bytes) (hg : strOK group) (accept : Accept)
     (hacc : accept (strVal group) = true) (order : Int) (rest₁ : Bytes) :
